@@ -86,3 +86,25 @@ Example C10_heartbeat_example :
     tick (xp_L xp_pr_probe <| r_heartbeat_elapsed := 1 |>) = Ok (r', b) /\
     r_msgs r' = [x] /\ m_type x = MsgHeartbeat /\ m_to x = 2 /\ r_heartbeat_elapsed r' = 0.
 Proof. vm_compute. do 3 eexists. repeat split; reflexivity. Qed.
+
+(* 7: every hypothesis of star_commit_all holds of a concrete 3-node star: leader 1 (term 2,
+   entries 1..5 of terms 1,1,2,2,2, nothing committed), follower 2 (entries 1..3, entry 3
+   diverging) tracked as a PAUSED probe at next_idx 5, follower 3 (entries 1..2) tracked
+   as Replicate with a FULL window of stale indexes;
+   191 = (heartbeat_timeout + 2) * pair_measure_bound 5 0 + heartbeat_timeout + 1 *)
+Example C10_star_commit_applies :
+  forall L' Fs', star_rounds (188 + 3) sp_L [sp_F2; sp_F3] = Ok (L', Fs') ->
+  committed (r_log L') = 5 /\
+  Forall2 (fun F F' => star_done sp_L L' F F' /\ committed (r_log F') = 5) [sp_F2; sp_F3] Fs'.
+Proof. exact sp_commit_applies. Qed.
+
+(* and the 191 rounds do run without a panic (computed): everybody has the whole log and
+   has committed it *)
+Example C10_star_run :
+  exists L' F2' F3' p2 p3,
+    star_rounds (188 + 3) sp_L [sp_F2; sp_F3] = Ok (L', [F2'; F3']) /\
+    committed (r_log L') = 5 /\
+    get_pr L' 2 = Some p2 /\ matched p2 = 5 /\ get_pr L' 3 = Some p3 /\ matched p3 = 5 /\
+    last_index (r_log F2') = 5 /\ committed (r_log F2') = 5 /\
+    last_index (r_log F3') = 5 /\ committed (r_log F3') = 5.
+Proof. exact sp_run. Qed.
